@@ -12,9 +12,11 @@ import (
 // subsetLoadBalancer.ChooseHost combines several inner balancers (matched subset entry, full set, fallback entry). An
 // inner balancer returns nil when all *its* hosts are unhealthy, which says nothing about the rest of the cluster. Clause
 // ("no host only if none is healthy", composed with the fallback policy): every return of ChooseHost is one of
-//   (a) a delegate's result on the edge where it is known non-nil,
-//   (b) the result of the last-resort delegate (the fallback entry),
-//   (c) nil on the edge where there is no fallback entry.
+//
+//	(a) a delegate's result on the edge where it is known non-nil,
+//	(b) the result of the last-resort delegate (the fallback entry),
+//	(c) nil on the edge where there is no fallback entry.
+//
 // A possibly-nil intermediate result returned directly hides healthy hosts behind an unhealthy subset.
 func c05Composite(c *Ctx) {
 	pkg := "pkg/upstream/cluster"
